@@ -402,7 +402,8 @@ def ob_unit_norm():
 
 
 @obligation("inv10/rejects_bad_power",
-            desc="P setter: non-positive scalar, wrong length or non-positive entry raise ValueError and leave P unchanged")
+            desc="P setter: non-positive scalar, wrong length or a vector with a non-positive entry (symbolic entries) raise ValueError and leave P "
+                 "and the power-scaled precoders unchanged")
 def ob_bad_power():
     def body(c, it):
         ch, s, draws = _new(c, it)
@@ -422,8 +423,58 @@ def ob_bad_power():
             goals.append(Goal("wrong length rejected", False))
         except PyRaise as pr:
             goals.append(Goal("wrong length -> ValueError", isinstance(pr.exc, ValueError)))
+        # a VECTOR with a non-positive entry (symbolic entries) is rejected as a whole: the power in force and everything derived from it
+        # stay what they were
+        Fs = np.empty(K, dtype=object)
+        for k in range(K):
+            Fs[k] = _cmat(c, "F%d" % k, N, 1)
+        it.call(it.getattr(s, "set_precoders"), [Fs])
+        it.setattr(s, "P", [1.5, 0.75][:K] if K <= 2 else [1.5, 0.75] + [2.0] * (K - 2))
+        fF0 = [np.array(x, dtype=object, copy=True) for x in it.getattr(s, "full_F")]
+        w0, w1 = c.var("w0", "real"), c.var("w1", "real")
+        try:
+            it.setattr(s, "P", [w0, w1] + [1.0] * (K - 2))
+            goals.append(Goal("accepted vector => every entry positive", (w0 > 0) & (w1 > 0)))
+        except PyRaise as pr:
+            goals.append(Goal("vector rejected with ValueError", isinstance(pr.exc, ValueError)))
+            goals.append(Goal("vector rejected => some entry is non-positive", (w0 <= 0) | (w1 <= 0)))
+            Pn = list(it.getattr(s, "P"))
+            goals.append(Goal("rejected vector: P unchanged", len(Pn) == K and Pn[0] == 1.5 and Pn[1] == 0.75))
+            fF1 = it.getattr(s, "full_F")
+            goals.append(Goal("rejected vector: full_F unchanged", all(bool(_meq_c(fF1[k], fF0[k])) for k in range(K))))
         return goals
-    return verify(body, check_side=False)
+
+    def rp(mv):
+        import pyphysim.ia.algorithms as alg
+        import pyphysim.channels.multiuser as mu
+        try:
+            ch = mu.MultiUserChannelMatrix()
+            ch._RS_channel = np.random.RandomState(2)
+            ch.randomize(2, 2, 3)
+            s_ = alg.AlternatingMinIASolver(ch)
+            s_._rs = np.random.RandomState(3)
+            s_.randomizeF(1, [1.5, 0.75, 2.0])
+            before = (np.array(s_.P, copy=True), [np.array(x, copy=True) for x in s_.full_F])
+            for bad in ([2.0, -1.0, 0.5], [0.0, 1.0, 1.0]):
+                try:
+                    s_.P = bad
+                    return {"confirmed": True, "P = %r" % (bad,): "accepted"}
+                except ValueError:
+                    pass
+                if not np.array_equal(np.asarray(s_.P), before[0]) or any(not np.array_equal(a, b) for a, b in zip(s_.full_F, before[1])):
+                    return {"confirmed": True, "history": "P = [1.5, 0.75, 2.0]; P = %r raises ValueError (caught)" % (bad,),
+                            "P now": np.asarray(s_.P).tolist(), "P before": before[0].tolist()}
+            return {"confirmed": False, "note": "a rejected power vector leaves the solver unchanged"}
+        except Exception as e:
+            return {"confirmed": False, "error": "replay crashed: %r" % (e,)}
+    return verify(body, check_side=False, replay=rp)
+
+
+def _meq_c(A, B):
+    A, B = np.asarray(A, dtype=object), np.asarray(B, dtype=object)
+    if A.shape != B.shape:
+        return False
+    return all(bool(z3.is_true(z3.simplify(_ceq(a, b)))) or (a is b) for a, b in zip(A.flat, B.flat))
 
 
 # ------------------------------------------------------------------ bounded: the real solvers
@@ -627,6 +678,12 @@ def _iterative(name, exact_power, monotone):
         for i in range(30 if quick() else 300):
             yield {"seed": int(r.randint(1 << 30)), "n": int(2 + i % 3), "init": ["random", "closed_form", "alt_min", "svd"][(i // 3) % 4],
                    "P": [1.0, "vec", "wild"][(i // 12) % 3], "noise": [1e-3, 0.1][i % 2], "pathloss": bool(i % 2 == 1)}
+        # "every channel ... on which a solver is defined": receive and transmit antenna counts that DIFFER, incl. transmitters with
+        # more antennas than there are streams in the network (spare transmit dimensions)
+        for j, (nr, nt) in enumerate(((3, 4), (2, 4), (4, 2), (2, 3), (3, 2), (4, 3))):
+            for rep in range(1 if quick() else 4):
+                yield {"seed": int(r.randint(1 << 30)), "n": nt, "nr": nr, "init": "random", "P": [1.0, "vec"][(j + rep) % 2],
+                       "noise": [1e-3, 0.1][j % 2], "ns": 1}
 
     def check(case):
         rr = np.random.RandomState(case["seed"])
@@ -639,7 +696,7 @@ def _iterative(name, exact_power, monotone):
             ns = 1          # recorded known finding: see solvers/max_sinr_closed_form_init_two_streams
         ch = mu.MultiUserChannelMatrix()
         ch._RS_channel = np.random.RandomState(case["seed"])
-        ch.randomize(n, n, 3)
+        ch.randomize(case.get("nr", n), n, 3)
         if case.get("pathloss"):
             ch.set_pathloss(10 ** rr.uniform(-3, 0, (3, 3)))         # every quantity of the solver is built on the links WITH their path loss
         ch.noise_var = case["noise"]
